@@ -421,6 +421,8 @@ def run(repo, rep):
     c01.table_rules(repo, rep)
     c02.table_rules(repo, rep)
     guard_rules(repo, rep)
+    # ... and the central meridian the two values are computed about: the zone / central-meridian lattice (UTM, ISG, user-defined layouts)
+    common.zone_table_rule(repo, rep)
 
 
 def guard_rules(repo, rep):
